@@ -9,7 +9,6 @@ population on the lowest level(s).
 """
 import numpy
 from scipy import constants as _C
-from scipy.special import logsumexp
 
 #: Boltzmann constant in (rad/fs)/K :  k_B / hbar * 1 fs
 KB_INT = _C.k / _C.hbar * 1.0e-15
@@ -34,7 +33,10 @@ def log_populations(energies, T):
         x = numpy.where(low, 0.0, numpy.inf)
         return logp, x
     x = d / (KB_INT * float(T))
-    return -x - logsumexp(-x), x
+    # x >= 0 with min(x) = 0: the sum lies in [1, n], log-sum-exp without any shift
+    with numpy.errstate(under="ignore"):
+        lse = numpy.log(numpy.sum(numpy.exp(-x)))
+    return -x - lse, x
 
 
 def populations(energies, T):
